@@ -201,7 +201,7 @@ def delegationMethod (attr : TraitAttr) (containsAsync : Bool) (tf : TraitFn) : 
 /-- `ImplWhereClause::push_impl_t_bounds` -/
 def traitImplTBounds (attr : TraitAttr) (containsAsync : Bool) (traitIdent : String) (tg : TraitGenerics) : List Toks :=
   let traitWithArgs : Toks := [i traitIdent] ++ genericArgs .none tg.params
-  let sendSync : List Toks := if containsAsync then [sendToks, syncToks] else []
+  let sendSync : List Toks := if containsAsync then [syncToks] else []
   match attr.implTrait, attr.delegation with
   | some _, some (.byTrait d) => [[i d, p '<', i entraitT, p '>'], syncToks, staticToks]
   | some (_, implIdent), some (.byRef borrow) =>
